@@ -58,8 +58,11 @@ def minHour : Nat := 8761
 
 structure Ghost where
   evs : List Ev
-  /-- the current hour -/
+  /-- the current hour: the hour the statistics module counts in (the last
+  hour it has seen at a rollover, start or clear) -/
   now : Nat
+  /-- the hour the clock shows; ahead of `now` while a rollover is pending -/
+  clock : Nat
   /-- retention limit in force, in hours -/
   limit : Nat
   enabled : Bool
@@ -95,31 +98,36 @@ def counted (g : Ghost) (e : Entry) : Bool :=
 def Ghost.refresh (g : Ghost) : Ghost :=
   { g with evs := g.evs.map fun e => { e with kept := e.kept && inWindow g.now g.limit e.hour } }
 
-/-- The clock shows hour `id`. -/
+/-- The clock shows hour `id` and the module has noticed (rollover or start). -/
 def Ghost.advance (g : Ghost) (id : Nat) : Ghost :=
-  { g with now := id, dom := g.dom && decide (g.now ≤ id) && decide (id < U32) }
+  { g with now := id, clock := id, dom := g.dom && decide (g.clock ≤ id) && decide (id < U32) }
+
+/-- The clock shows hour `h`; the module has not noticed yet. -/
+def Ghost.wall (g : Ghost) (h : Nat) : Ghost :=
+  { g with clock := h, dom := g.dom && decide (g.clock ≤ h) && decide (h < U32) }
 
 /-- The intervals the configuration API accepts (1 h … 365 d, in ms). -/
 def okIvl (ms : Nat) : Bool := decide (msPerHour ≤ ms) && decide (ms ≤ 365 * 24 * msPerHour)
 
 def Ghost.init (clock limitMs : Nat) (enabled : Bool) : Ghost :=
-  { evs := [], now := clock, limit := limitMs / msPerHour, enabled := enabled
+  { evs := [], now := clock, clock := clock, limit := limitMs / msPerHour, enabled := enabled
     dom := decide (minHour ≤ clock) && decide (clock < U32) }
 
 /-- What each operation means for the ghost record. -/
 def ghostStep (g : Ghost) : Op → Ghost
   | .upd e n => if counted g e then { g with evs := ⟨g.now, e.result.toNat, n, true⟩ :: g.evs } else g
   | .tick id => (g.advance id).refresh
+  | .advance h => g.wall h
   | .restart id l en => ({ g.advance id with limit := l / msPerHour, enabled := en }).refresh
   | .setDays d =>
     -- legacy API: 1/7/30/90 days enable statistics with that limit, 0 disables
     -- AND clears them, anything else is rejected
     if d = 1 ∨ d = 7 ∨ d = 30 ∨ d = 90 then ({ g with limit := d * 24, enabled := true }).refresh
-    else if d = 0 then { g with enabled := false, evs := [] }
+    else if d = 0 then { g with enabled := false, evs := [], now := g.clock }
     else g
   | .putConf ms en =>
     if okIvl ms then ({ g with limit := ms / msPerHour, enabled := en }).refresh else g
-  | .clear => { g with evs := [] }
+  | .clear => { g with evs := [], now := g.clock }
   | .read => g
 
 def between (lo x hi : Nat) : Bool := decide (lo ≤ x) && decide (x ≤ hi)
@@ -154,6 +162,17 @@ def allSeriesOK (g : Ghost) (r : Resp) : Bool :=
   seriesOK g r.days (.cat 3) r.replacedSafebrowsing r.numReplacedSafebrowsing &&
   seriesOK g r.days (.cat 5) r.replacedParental r.numReplacedParental
 
+/-- The top lists of the answer, summed, against the totals of the same answer.
+Every counted query is in the clients list once, and in exactly one of the
+queried / blocked domain lists according to its category; so as long as no
+list is cut (at most 100 names per hour and per window — the harness's pools
+are far smaller) `top_clients` adds up to `num_dns_queries`, `top_blocked_domains`
+to the four blocked categories and `top_queried_domains` to the rest. -/
+def topsOK (r : Resp) (topClients topQueried topBlocked : Nat) : Bool :=
+  topClients == r.numDNSQueries &&
+  topBlocked == r.numBlockedFiltering + r.numReplacedSafebrowsing + r.numReplacedSafesearch + r.numReplacedParental &&
+  topQueried + topBlocked == r.numDNSQueries
+
 /-- The monitor: ghost record so far × what GET /control/stats answered
 (`error` = the read crashed or failed). -/
 def specOK (g : Ghost) (out : Except Fault Resp) : Bool :=
@@ -184,6 +203,7 @@ when they are rejected or ask for `L` hours again). -/
 def keepsLimit (L : Nat) : Op → Prop
   | .upd _ _ => True
   | .tick _ => True
+  | .advance _ => True
   | .restart _ l _ => l / msPerHour = L
   | .setDays d => (d = 1 ∨ d = 7 ∨ d = 30 ∨ d = 90) → d * 24 = L
   | .putConf ms _ => okIvl ms = true → ms / msPerHour = L
